@@ -61,7 +61,9 @@ class Robust(Part):
                         if ctx.quick and rng.random() < 0.35:
                             continue
                         twins = rng.random() < 0.3
-                        cases.append({"kind": kind, "n": n, "userm": um, "sizes": sizes, "run": None, "twins": twins,
+                        # a parameter pinned by degenerate bounds (lb == ub) is an ordinary configuration: it still has its axis
+                        pinned = rng.randrange(n) if rng.random() < 0.3 else None
+                        cases.append({"kind": kind, "n": n, "userm": um, "sizes": sizes, "run": None, "twins": twins, "pinned": pinned,
                                       "faulty": (not twins) and rng.random() < 0.35, "cseed": rng.randrange(1 << 30)})
         for _ in range(6 if ctx.quick else 60):
             cases.append({"kind": "worstcase", "n": rng.randint(1, 3), "userm": rng.randint(1, 2), "sizes": None,
@@ -94,7 +96,12 @@ class Robust(Part):
                 return [first] + [float(fint(ind.vector, j)) for j in range(1, um)]
             return [float(fint(ind.vector, j)) for j in range(um)]
         costs = [{'name': 'f_%d' % (j + 1), 'criteria': rng.choice(['minimize', 'maximize']) if j else 'minimize'} for j in range(um)]
-        problem = absx.make_problem(n, bounds=[[-20.0, 20.0]] * n, costs=costs, evaluate=f)
+        bounds = [[-20.0, 20.0] for _ in range(n)]
+        pinned = case.get("pinned")
+        if pinned is not None:
+            pin = rng.randint(-18, 18) * 0.5 if kind == "gradient" else rng.randint(-int(18 / tols[pinned]), int(18 / tols[pinned])) * tols[pinned]
+            bounds[pinned] = [pin, pin]
+        problem = absx.make_problem(n, bounds=bounds, costs=costs, evaluate=f)
         for p, t in zip(problem.parameters, tols):
             p['tol'] = t
         etype = EvaluatorType.WORST_CASE if kind == "worstcase" else EvaluatorType.GRADIENT
@@ -138,8 +145,12 @@ class Robust(Part):
 
         def lattice_vector():
             if kind == "gradient":
-                return [rng.randint(-18, 18) * 0.5 for _ in range(n)]
-            return [rng.randint(-int(18 / t), int(18 / t)) * t for t in tols]
+                v = [rng.randint(-18, 18) * 0.5 for _ in range(n)]
+            else:
+                v = [rng.randint(-int(18 / t), int(18 / t)) * t for t in tols]
+            if pinned is not None:
+                v[pinned] = pin
+            return v
 
         if case.get("faulty") and kind == "gradient":
             case["faulty"] = False          # the gradient identity needs lattice vectors; re-sampled designs are arbitrary floats
